@@ -19,6 +19,7 @@ import (
 
 	extv1 "k8s.io/apiextensions-apiserver/pkg/apis/apiextensions/v1"
 	kerrors "k8s.io/apimachinery/pkg/api/errors"
+	metav1 "k8s.io/apimachinery/pkg/apis/meta/v1"
 	kunstructured "k8s.io/apimachinery/pkg/apis/meta/v1/unstructured"
 	"k8s.io/apimachinery/pkg/runtime"
 	"k8s.io/apimachinery/pkg/runtime/schema"
@@ -156,6 +157,15 @@ func (f *fakeCache) RemoveInformer(ctx context.Context, obj client.Object) error
 	gvk, err := apiutil.GVKForObject(obj, f.scheme)
 	if err != nil {
 		return err
+	}
+	// controller-runtime keeps separate informers for typed, unstructured and metadata-only
+	// objects of one kind: removing by a metadata-only object does not touch the informer the
+	// watches (started with typed / unstructured objects) live on
+	if _, metaOnly := obj.(*metav1.PartialObjectMetadata); metaOnly {
+		f.mu.Lock()
+		f.removals++
+		f.mu.Unlock()
+		return nil
 	}
 	f.mu.Lock()
 	hook := f.beforeRemove
